@@ -226,6 +226,75 @@ def x_deque(e, st, args, kwargs):
     yield st.alloc(Obj(None, "deque", None, list(items or []), {"maxlen": mlc}))
 
 
+# ---------------------------------------------------------------------------------------------- struct (big-endian)
+_STRUCT_SIZES = {"B": (1, False), "b": (1, True), "H": (2, False), "h": (2, True), "I": (4, False), "i": (4, True),
+                 "L": (4, False), "l": (4, True), "Q": (8, False), "q": (8, True), "x": (1, None)}
+
+
+def _struct_fields(fmt):
+    """[(size, signed | None for padding)] of a standard-size big-endian format, or Unsupported"""
+    if not isinstance(fmt, StrV):
+        raise Unsupported("struct format that is not a literal string")
+    f = fmt.s.replace(" ", "")
+    if not f or f[0] not in ">!":
+        raise Unsupported(f"struct format {fmt.s!r}: only big-endian standard-size formats ('>' / '!') are modelled")
+    out, num = [], ""
+    for ch in f[1:]:
+        if ch.isdigit():
+            num += ch
+            continue
+        if ch not in _STRUCT_SIZES:
+            raise Unsupported(f"struct format code {ch!r}")
+        out.extend([_STRUCT_SIZES[ch]] * (int(num) if num else 1))
+        num = ""
+    return out
+
+
+def _struct_unpack(e, st, fields, data):
+    size = sum(s for s, _ in fields)
+    if not isinstance(data, BytesV):
+        raise Unsupported("struct.unpack of a non-bytes value")
+    n = e.bytes_const_len(data)
+    if n is None:
+        ln = e.bytes_len(data)
+        ok = ln == e.intval(size)
+        if e.feasible(st.pc, z3.Not(ok)):
+            yield st.assume(z3.Not(ok)), RaiseV(e.exc("struct.error", f"unpack requires a buffer of {size} bytes"))
+        if e.feasible(st.pc, ok):
+            raise Unsupported("struct.unpack of a buffer of symbolic length (slice it to the exact size first)")
+        return
+    if n != size:
+        yield st, RaiseV(e.exc("struct.error", f"unpack requires a buffer of {size} bytes"))
+        return
+    vals, off = [], 0
+    for s, signed in fields:
+        if signed is not None:
+            vals.append(e.int_from_bytes(e.bytes_slice(st, data, off, off + s), signed))
+        off += s
+    yield st, TupleV(vals)
+
+
+def x_struct_unpack(e, st, args, kwargs):
+    e.used_assumptions.add("struct.unpack/pack: big-endian standard-size formats only; struct.error iff the buffer size differs")
+    yield from _struct_unpack(e, st, _struct_fields(args[0]), args[1])
+
+
+def x_struct_calcsize(e, st, args, kwargs):
+    yield st, e.intval(sum(s for s, _ in _struct_fields(args[0])))
+
+
+def x_struct_struct(e, st, args, kwargs):
+    yield st, Opaque("struct_obj", None, {"fields": _struct_fields(args[0])})
+
+
+def h_struct_obj(e, st, o, name, args, kwargs):
+    e.used_assumptions.add("struct.unpack/pack: big-endian standard-size formats only; struct.error iff the buffer size differs")
+    if name == "unpack":
+        yield from _struct_unpack(e, st, o.data["fields"], args[0])
+    else:
+        raise Unsupported(f"struct.Struct.{name}")
+
+
 def x_getlogger(e, st, args, kwargs):
     yield st, Opaque("logger")
 
@@ -245,7 +314,7 @@ def install_default_models(e):
                               "link_layer": h_link_layer, "callback": h_callback, "timer": h_timer,
                               "thread": h_thread, "cbf_buffer": make_keyed_map_handler(_fresh_timer),
                               "loc_t": make_keyed_map_handler(_fresh_any), "time_fn": h_time_fn, "any_list": h_any_list, "datetime": h_datetime,
-                              "nearby_map": make_keyed_map_handler(_fresh_any), "keyed_keys": h_keyed_keys})
+                              "nearby_map": make_keyed_map_handler(_fresh_any), "keyed_keys": h_keyed_keys, "struct_obj": h_struct_obj})
     e.external_handlers.update({
         "threading.Lock": x_lock, "threading.RLock": x_lock, "threading.Event": x_event, "threading.Timer": x_timer,
         "threading.Thread": x_thread,
@@ -256,6 +325,7 @@ def install_default_models(e):
         "dateutil.parser.parse": x_dateutil_parse, "dateutil.parser.parser.parse": x_dateutil_parse,
         "random.uniform": x_uniform, "random.randint": x_randint, "time.time": x_time, "time.sleep": x_sleep,
         "flexstack.utils.time_service:TimeService.time": x_time,
+        "struct.unpack": x_struct_unpack, "struct.calcsize": x_struct_calcsize, "struct.Struct": x_struct_struct,
     })
 
 
